@@ -75,7 +75,7 @@ class C13(SeqProp):
     id = "C13"
     props_file = "Props/C13.v"
     focus = "typestate"
-    quick_cases = 400
+    quick_cases = 800
     thorough_cases = 6000
     extra_targets = ["Model/Chan.v", "Model/SeqSnap.v"]
     assumptions = [
